@@ -595,6 +595,14 @@ static ContentPtr do_convert(const std::string& what, const ContentPtr& x, Toks&
     TRYCLASS(ListArrayU32, toListOffsetArray64(z)) TRYCLASS(ListArray64, toListOffsetArray64(z))
     TRYCLASS(RegularArray, toListOffsetArray64(z))
   }
+  else if (what == "broadcast_tooffsets64") {
+    int64_t n = tk.i64();
+    Index64 offs = mkindex<int64_t>(tk, n);
+    TRYCLASS(ListOffsetArray32, broadcast_tooffsets64(offs)) TRYCLASS(ListOffsetArrayU32, broadcast_tooffsets64(offs))
+    TRYCLASS(ListOffsetArray64, broadcast_tooffsets64(offs)) TRYCLASS(ListArray32, broadcast_tooffsets64(offs))
+    TRYCLASS(ListArrayU32, broadcast_tooffsets64(offs)) TRYCLASS(ListArray64, broadcast_tooffsets64(offs))
+    TRYCLASS(RegularArray, broadcast_tooffsets64(offs))
+  }
   else if (what == "toRegularArray") {
     TRYCLASS(ListOffsetArray32, toRegularArray()) TRYCLASS(ListOffsetArrayU32, toRegularArray())
     TRYCLASS(ListOffsetArray64, toRegularArray()) TRYCLASS(ListArray32, toRegularArray())
@@ -812,6 +820,7 @@ static std::string run_op(const std::string& op, Toks& tk, ContentPtr& result) {
     size_t save = tk.pos;
     std::vector<std::string> args;
     if (what == "toListOffsetArray64") args.push_back(tk.next());
+    if (what == "broadcast_tooffsets64") { args.push_back(tk.next()); int64_t n = strtoll(args.back().c_str(), nullptr, 10); for (int64_t i = 0; i < n; i++) args.push_back(tk.next()); }
     if (what == "simplify_uniontype") { args.push_back(tk.next()); args.push_back(tk.next()); }
     (void)save;
     ContentPtr x = input_layout(tk);
